@@ -46,6 +46,8 @@ type C08Case struct {
 	// Procs: GOMAXPROCS during the concurrent phase (0: the machine's); with one processor the
 	// compilations interleave only where the stateless custom operators (called while folding) yield
 	Procs int `json:"procs,omitempty"`
+	// Infix: the shared config enables infix notation and the sources are written in it
+	Infix bool `json:"infix,omitempty"`
 }
 
 var malformedDirectives = []string{";;;; bogus\n", ";;;; reordering:maybe\n", ";;;; a:b:c\n", ";;;; debug:true\n", ";;;;\n", ";;;; optimize\n"}
@@ -124,6 +126,7 @@ func genC08(t *rapid.T) C08Case {
 		c.Parallel = append(c.Parallel, rapid.SliceOfN(rapid.IntRange(0, ns-1), 2, 8).Draw(t, "work"))
 	}
 	c.Procs = []int{0, 1, 2, 4}[pickW(t, "procs", 3, 1, 1, 1)]
+	c.Infix = rapid.IntRange(0, 2).Draw(t, "infix") == 0
 	return c
 }
 
@@ -300,7 +303,7 @@ func checkC08(c C08Case, r *Rec) *Violation {
 	if c.Sparse {
 		how = HowMapSparse
 	}
-	cc, _ := NewConfig(u, &Log{}, Build{Mask: c.Mask, How: how, Costs: c.Costs, Pure: true})
+	cc, _ := NewConfig(u, &Log{}, Build{Mask: c.Mask, How: how, Costs: c.Costs, Pure: true, Infix: c.Infix})
 	if c.Mask%2 == 0 { // the caller's stateless slice may have spare capacity (built by appending)
 		withCap := make([]string, len(cc.StatelessOperators), len(cc.StatelessOperators)+5)
 		copy(withCap, cc.StatelessOperators)
@@ -350,6 +353,9 @@ func checkC08(c C08Case, r *Rec) *Violation {
 	srcs := make([]string, len(c.Sources))
 	for i, s := range c.Sources {
 		srcs[i] = s.Prefix + m.Render(s.Tree)
+		if c.Infix {
+			srcs[i] = s.Prefix + m.RenderInfix(s.Tree, m.InfixOpts{})
+		}
 	}
 	base := snapshotConfig(cc)
 	first := map[int]c08Result{}
